@@ -74,6 +74,20 @@ var (
 	pubsubRoot = el(nsPubsub, "pubsub")
 )
 
+// Ready-made subtrees of typical replies.
+const (
+	mRSMFull  = `<set xmlns='` + nsRSM + `'><first index='0'>a1</first><last>a2</last><count>2</count></set>`
+	mRSMLast  = `<set xmlns='` + nsRSM + `'><last>a2</last></set>`
+	mFormFull = `<x xmlns='` + nsData + `' type='form'><title>t</title><instructions>i</instructions><field var='FORM_TYPE' type='hidden'><value>urn:app:form</value></field><field var='l' type='list-multi' label='L'><desc>d</desc><required/><value>a</value><value>b</value><option label='A'><value>a</value></option><option><value>b</value></option></field></x>`
+	mField    = `<field xmlns='` + nsData + `' var='t' type='text-multi'><value>line1</value><value>line2</value></field>`
+)
+
+var (
+	itemsMacros = []string{mRSMFull, mRSMLast,
+		`<item xmlns='` + nsItems + `' jid='a@example.org' node='n2' name='n'/><item xmlns='` + nsItems + `' jid='example.org'/>`}
+	formMacros = []string{mFormFull, mField}
+)
+
 const iterCap = 200
 
 var errIterCap = errors.New("c09: the iterator still has items after 200 calls of Next")
@@ -212,17 +226,17 @@ func testForm() *form.Data {
 
 var helperSpecs = []*hspec{
 	// ---- the session's own helpers
-	{name: "Session.SendIQ", ownErrPath: true, spine: []elemSpec{el(nsGenericQ, "q", at("a", "1"))}, variants: 3,
+	{name: "Session.SendIQ", spine: []elemSpec{el(nsGenericQ, "q", at("a", "1"))}, variants: 3,
 		call: func(x *hx) error {
 			resp, err := x.s.SendIQ(x.ctx, genericRequest("g1"))
 			return readResponse(x, resp, err)
 		}},
-	{name: "Session.SendIQElement", ownErrPath: true, spine: []elemSpec{el(nsGenericQ, "q", at("a", "1"))},
+	{name: "Session.SendIQElement", spine: []elemSpec{el(nsGenericQ, "q", at("a", "1"))},
 		call: func(x *hx) error {
 			resp, err := x.s.SendIQElement(x.ctx, genericQ(), stanza.IQ{Type: stanza.SetIQ, To: serverJID})
 			return readResponse(x, resp, err)
 		}},
-	{name: "Session.EncodeIQElement", ownErrPath: true, spine: []elemSpec{el(nsGenericQ, "q", at("a", "1"))},
+	{name: "Session.EncodeIQElement", spine: []elemSpec{el(nsGenericQ, "q", at("a", "1"))},
 		call: func(x *hx) error {
 			resp, err := x.s.EncodeIQElement(x.ctx, struct {
 				XMLName xml.Name `xml:"urn:q q"`
@@ -291,16 +305,19 @@ var helperSpecs = []*hspec{
 			el(nsInfo, "identity", at("category", "client"), at("type", "pc"), at("name", "n"), at("xml:lang", "en")),
 			el(nsInfo, "feature", at("var", nsPing)),
 		}, formElems...),
+		macros: append([]string{`<identity xmlns='` + nsInfo + `' category='client' type='pc' name='n' xml:lang='en'/><feature xmlns='` + nsInfo + `' var='urn:xmpp:ping'/>`}, formMacros...),
 		call: func(x *hx) error {
 			info, err := disco.GetInfo(x.ctx, "n1", serverJID, x.s)
 			x.note("%d identities, %d features, %d forms", len(info.Identity), len(info.Features), len(info.Form))
 			return err
 		}},
 	{name: "disco.FetchItems", errReturned: true, spine: []elemSpec{itemsQuery}, elems: itemsElems,
+		macros: itemsMacros,
 		call: func(x *hx) error {
 			return discoItemIter(x, disco.FetchItems(x.ctx, items.Item{JID: serverJID, Node: "n1"}, x.s))
 		}},
 	{name: "disco.WalkItem", ownErrPath: true, spine: []elemSpec{itemsQuery}, elems: itemsElems,
+		macros: itemsMacros,
 		call: func(x *hx) error {
 			n := 0
 			return disco.WalkItem(x.ctx, items.Item{JID: serverJID, Node: "n1"}, x.s, func(level int, item items.Item, err error) error {
@@ -314,8 +331,9 @@ var helperSpecs = []*hspec{
 
 	// ---- roster
 	{name: "roster.Fetch", errReturned: true,
-		spine: []elemSpec{el(nsRoster, "query", at("ver", "v1"))},
-		elems: []elemSpec{el(nsRoster, "item", at("jid", "a@example.org"), at("name", "n"), at("subscription", "both")), el(nsRoster, "group")},
+		spine:  []elemSpec{el(nsRoster, "query", at("ver", "v1"))},
+		elems:  []elemSpec{el(nsRoster, "item", at("jid", "a@example.org"), at("name", "n"), at("subscription", "both")), el(nsRoster, "group")},
+		macros: []string{`<item xmlns='` + nsRoster + `' jid='a@example.org' name='n' subscription='both' ask='subscribe'><group>g1</group><group>g2</group></item>`},
 		call: func(x *hx) error {
 			it := roster.Fetch(x.ctx, x.s)
 			n := 0
@@ -329,18 +347,19 @@ var helperSpecs = []*hspec{
 			x.note("%d items, version %q, Err()=%v", n, it.Version(), it.Err())
 			return firstErr(it.Err(), it.Close())
 		}},
-	{name: "roster.Set", ownErrPath: true, spine: []elemSpec{el(nsRoster, "query", at("ver", "v1"))},
+	{name: "roster.Set", spine: []elemSpec{el(nsRoster, "query", at("ver", "v1"))},
 		elems: []elemSpec{el(nsRoster, "item", at("jid", "a@example.org"))},
 		call: func(x *hx) error {
 			return roster.Set(x.ctx, x.s, roster.Item{JID: otherJID, Name: "n", Group: []string{"g"}})
 		}},
-	{name: "roster.Delete", ownErrPath: true, spine: []elemSpec{el(nsRoster, "query", at("ver", "v1"))},
+	{name: "roster.Delete", spine: []elemSpec{el(nsRoster, "query", at("ver", "v1"))},
 		call: func(x *hx) error { return roster.Delete(x.ctx, x.s, otherJID) }},
 
 	// ---- blocklist
 	{name: "blocklist.Fetch", errReturned: true,
-		spine: []elemSpec{el(nsBlocking, "blocklist")},
-		elems: []elemSpec{el(nsBlocking, "item", at("jid", "a@example.org"))},
+		spine:  []elemSpec{el(nsBlocking, "blocklist")},
+		elems:  []elemSpec{el(nsBlocking, "item", at("jid", "a@example.org"))},
+		macros: []string{`<item xmlns='` + nsBlocking + `' jid='a@example.org'/><item xmlns='` + nsBlocking + `' jid='example.org/r'/>`},
 		call: func(x *hx) error {
 			it := blocklist.Fetch(x.ctx, x.s)
 			n := 0
@@ -354,19 +373,20 @@ var helperSpecs = []*hspec{
 			x.note("%d items, Err()=%v", n, it.Err())
 			return firstErr(it.Err(), it.Close())
 		}},
-	{name: "blocklist.Add", ownErrPath: true, spine: []elemSpec{el(nsBlocking, "block")}, elems: []elemSpec{el(nsBlocking, "item", at("jid", "a@example.org"))},
+	{name: "blocklist.Add", spine: []elemSpec{el(nsBlocking, "block")}, elems: []elemSpec{el(nsBlocking, "item", at("jid", "a@example.org"))},
 		call: func(x *hx) error { return blocklist.Add(x.ctx, x.s, otherJID) }},
-	{name: "blocklist.Remove", ownErrPath: true, spine: []elemSpec{el(nsBlocking, "unblock")}, elems: []elemSpec{el(nsBlocking, "item", at("jid", "a@example.org"))},
+	{name: "blocklist.Remove", spine: []elemSpec{el(nsBlocking, "unblock")}, elems: []elemSpec{el(nsBlocking, "item", at("jid", "a@example.org"))},
 		call: func(x *hx) error { return blocklist.Remove(x.ctx, x.s, otherJID) }},
-	{name: "blocklist.Report", ownErrPath: true, spine: []elemSpec{el(nsBlocking, "block")},
+	{name: "blocklist.Report", spine: []elemSpec{el(nsBlocking, "block")},
 		call: func(x *hx) error {
 			return blocklist.Report(x.ctx, x.s, blocklist.Item{JID: otherJID, Reason: blocklist.ReasonSpam, Text: "t"})
 		}},
 
 	// ---- pubsub and bookmarks
 	{name: "pubsub.Fetch", ownErrPath: true, errReturned: true,
-		spine: []elemSpec{pubsubRoot, el(nsPubsub, "items", at("node", "n1")), el(nsPubsub, "item", at("id", "i1"))},
-		elems: append([]elemSpec{el(nsPubsub, "items", at("node", "n1")), el(nsPubsub, "item", at("id", "i1")), el("urn:app", "entry", at("a", "1"))}, rsmElems...),
+		spine:  []elemSpec{pubsubRoot, el(nsPubsub, "items", at("node", "n1")), el(nsPubsub, "item", at("id", "i1"))},
+		elems:  append([]elemSpec{el(nsPubsub, "items", at("node", "n1")), el(nsPubsub, "item", at("id", "i1")), el("urn:app", "entry", at("a", "1"))}, rsmElems...),
+		macros: []string{mRSMFull, mRSMLast, `<item xmlns='` + nsPubsub + `' id='i2'><entry xmlns='urn:app'>text</entry></item>`},
 		call: func(x *hx) error {
 			return pubsubIter(x, pubsub.Fetch(x.ctx, x.s, pubsub.Query{Node: "n1", MaxItems: 2}))
 		}},
@@ -383,8 +403,9 @@ var helperSpecs = []*hspec{
 	{name: "pubsub.CreateNode", errReturned: true, spine: []elemSpec{pubsubRoot}, elems: []elemSpec{el(nsPubsub, "create", at("node", "n1"))},
 		call: func(x *hx) error { return pubsub.CreateNode(x.ctx, x.s, "n1", testForm()) }},
 	{name: "pubsub.GetConfig", errReturned: true,
-		spine: []elemSpec{el(nsPubsubOwn, "pubsub"), el(nsPubsubOwn, "configure", at("node", "n1")), el(nsData, "x", at("type", "form"))},
-		elems: append([]elemSpec{el(nsPubsubOwn, "configure", at("node", "n1")), el(nsPubsubOwn, "default")}, formElems...),
+		spine:  []elemSpec{el(nsPubsubOwn, "pubsub"), el(nsPubsubOwn, "configure", at("node", "n1")), el(nsData, "x", at("type", "form"))},
+		elems:  append([]elemSpec{el(nsPubsubOwn, "configure", at("node", "n1")), el(nsPubsubOwn, "default")}, formElems...),
+		macros: formMacros,
 		call: func(x *hx) error {
 			f, err := pubsub.GetConfig(x.ctx, x.s, "n1")
 			if f != nil {
@@ -393,8 +414,9 @@ var helperSpecs = []*hspec{
 			return err
 		}},
 	{name: "pubsub.GetDefaultConfig", errReturned: true,
-		spine: []elemSpec{el(nsPubsubOwn, "pubsub"), el(nsPubsubOwn, "default"), el(nsData, "x", at("type", "form"))},
-		elems: append([]elemSpec{el(nsPubsubOwn, "configure", at("node", "n1")), el(nsPubsubOwn, "default")}, formElems...),
+		spine:  []elemSpec{el(nsPubsubOwn, "pubsub"), el(nsPubsubOwn, "default"), el(nsData, "x", at("type", "form"))},
+		elems:  append([]elemSpec{el(nsPubsubOwn, "configure", at("node", "n1")), el(nsPubsubOwn, "default")}, formElems...),
+		macros: formMacros,
 		call: func(x *hx) error {
 			f, err := pubsub.GetDefaultConfig(x.ctx, x.s)
 			if f != nil {
@@ -411,6 +433,10 @@ var helperSpecs = []*hspec{
 			el(nsBookmarks, "conference", at("autojoin", "true"), at("name", "n")),
 			el(nsBookmarks, "nick"), el(nsBookmarks, "password"), el(nsBookmarks, "extensions"),
 		},
+		macros: []string{
+			`<item xmlns='` + nsPubsub + `' id='room2@conf.example.net'><conference xmlns='` + nsBookmarks + `' name='n' autojoin='1'><nick>me</nick><password>pw</password><extensions><e xmlns='urn:e'/></extensions></conference></item>`,
+			`<item xmlns='` + nsPubsub + `' id='@'><conference xmlns='` + nsBookmarks + `'/></item>`,
+			`<nick xmlns='` + nsBookmarks + `'>me</nick><extensions xmlns='` + nsBookmarks + `'><e xmlns='urn:e'>x</e></extensions>`},
 		call: func(x *hx) error {
 			it := bookmarks.Fetch(x.ctx, x.s)
 			n := 0
@@ -435,6 +461,7 @@ var helperSpecs = []*hspec{
 	// ---- message archive
 	{name: "history.Fetch", errReturned: true, nmsgs: 2,
 		spine: []elemSpec{el(nsMAM, "fin", at("complete", "true"), at("stable", "false"))}, elems: rsmElems,
+		macros: []string{mRSMFull, mRSMLast},
 		call: func(x *hx) error {
 			res, err := history.Fetch(x.ctx, history.Query{ID: "q1", Limit: 2}, serverJID, x.s)
 			x.note("result %+v", res)
@@ -442,6 +469,7 @@ var helperSpecs = []*hspec{
 		}},
 	{name: "history.Handler.Fetch", nmsgs: 2,
 		spine: []elemSpec{el(nsMAM, "fin", at("complete", "true"), at("stable", "false"))}, elems: rsmElems,
+		macros: []string{mRSMFull, mRSMLast},
 		call: func(x *hx) error {
 			// the application iterates without reading the message streams (they are
 			// the session's own reader, see findings.txt C.9)
@@ -461,6 +489,7 @@ var helperSpecs = []*hspec{
 	// ---- small queries
 	{name: "version.Get", errReturned: true,
 		spine: []elemSpec{el(nsVersion, "query")}, elems: []elemSpec{el(nsVersion, "name"), el(nsVersion, "version"), el(nsVersion, "os")},
+		macros: []string{`<name xmlns='` + nsVersion + `'>n</name><version xmlns='` + nsVersion + `'>1</version><os xmlns='` + nsVersion + `'>o</os>`},
 		call: func(x *hx) error {
 			q, err := version.Get(x.ctx, x.s, serverJID)
 			x.note("version %+v", q)
@@ -468,7 +497,8 @@ var helperSpecs = []*hspec{
 		}},
 	{name: "xtime.Get", errReturned: true,
 		spine: []elemSpec{el(nsTime, "time")}, elems: []elemSpec{el(nsTime, "tzo"), el(nsTime, "utc")},
-		texts: []string{"+01:00", "2020-01-01T00:00:00Z"},
+		texts:  []string{"+01:00", "2020-01-01T00:00:00Z"},
+		macros: []string{`<tzo xmlns='` + nsTime + `'>+01:00</tzo>`, `<utc xmlns='` + nsTime + `'>2020-01-01T00:00:00Z</utc>`, `<tzo xmlns='` + nsTime + `'>junk</tzo>`},
 		call: func(x *hx) error {
 			t, err := xtime.Get(x.ctx, x.s, serverJID)
 			x.note("time %v", t)
@@ -477,6 +507,10 @@ var helperSpecs = []*hspec{
 	{name: "upload.GetSlot", errReturned: true,
 		spine: []elemSpec{el(nsUpload, "slot")},
 		elems: []elemSpec{el(nsUpload, "put", at("url", "https://example.net/u/1")), el(nsUpload, "get", at("url", "https://example.net/d/1")), el(nsUpload, "header", at("name", "Authorization"))},
+		macros: []string{
+			`<put xmlns='` + nsUpload + `' url='https://example.net/u/1'><header name='Authorization'>Basic x</header><header name='cookie'>a=b</header><header name='X-Bad'>v</header></put>`,
+			`<get xmlns='` + nsUpload + `' url='https://example.net/d/1'/>`,
+			`<put xmlns='` + nsUpload + `' url='%zz://not a url'/>`},
 		call: func(x *hx) error {
 			slot, err := upload.GetSlot(x.ctx, upload.File{Name: "f.txt", Size: 3, Type: "text/plain"}, serverJID, x.s)
 			x.note("slot put=%v get=%v headers=%d", slot.PutURL, slot.GetURL, len(slot.Header))
@@ -502,6 +536,7 @@ var helperSpecs = []*hspec{
 	// ---- multi-user chat
 	{name: "muc.GetConfig", errReturned: true,
 		spine: []elemSpec{el(nsMUCOwner, "query"), el(nsData, "x", at("type", "form"))}, elems: formElems,
+		macros: formMacros,
 		call: func(x *hx) error {
 			f, err := muc.GetConfig(x.ctx, roomJID.Bare(), x.s)
 			if f != nil {
@@ -509,7 +544,7 @@ var helperSpecs = []*hspec{
 			}
 			return err
 		}},
-	{name: "muc.SetConfig", ownErrPath: true, spine: []elemSpec{el(nsMUCOwner, "query")},
+	{name: "muc.SetConfig", spine: []elemSpec{el(nsMUCOwner, "query")},
 		call: func(x *hx) error { return muc.SetConfig(x.ctx, roomJID.Bare(), testForm(), x.s) }},
 	{name: "muc.Channel.SetAffiliation", errReturned: true, joined: true,
 		spine: []elemSpec{el(nsMUCAdmin, "query")}, elems: []elemSpec{el(nsMUCAdmin, "item", at("affiliation", "member"), at("jid", "a@example.org")), el(nsMUCAdmin, "reason")},
@@ -519,6 +554,7 @@ var helperSpecs = []*hspec{
 
 	// ---- ad-hoc commands
 	{name: "commands.Fetch", errReturned: true, spine: []elemSpec{el(nsItems, "query", at("node", nsCommands))}, elems: itemsElems,
+		macros: itemsMacros,
 		call: func(x *hx) error {
 			it := commands.Fetch(x.ctx, serverJID, x.s)
 			n := 0
@@ -538,6 +574,7 @@ var helperSpecs = []*hspec{
 			el(nsCommands, "actions", at("execute", "next")), el(nsCommands, "next"), el(nsCommands, "prev"), el(nsCommands, "complete"),
 			el(nsCommands, "note", at("type", "info")),
 		}, formElems[:5]...),
+		macros: []string{`<actions xmlns='` + nsCommands + `' execute='next'><prev/><next/><complete/></actions>`, `<note xmlns='` + nsCommands + `' type='warn'>careful</note>`, mFormFull},
 		call: func(x *hx) error {
 			resp, payload, err := commands.Command{JID: serverJID, Node: "n1"}.Execute(x.ctx, nil, x.s)
 			if err != nil {
@@ -547,8 +584,9 @@ var helperSpecs = []*hspec{
 			return firstErr(commandPayload(x, payload), payload.Close())
 		}},
 	{name: "commands.Command.ForEach", ownErrPath: true, errReturned: true,
-		spine: []elemSpec{el(nsCommands, "command", at("status", "executing"), at("node", "n1"), at("sessionid", "s1"))},
-		elems: []elemSpec{el(nsCommands, "actions", at("execute", "next")), el(nsCommands, "next"), el(nsCommands, "note", at("type", "info")), el(nsData, "x", at("type", "form"))},
+		spine:  []elemSpec{el(nsCommands, "command", at("status", "executing"), at("node", "n1"), at("sessionid", "s1"))},
+		elems:  []elemSpec{el(nsCommands, "actions", at("execute", "next")), el(nsCommands, "next"), el(nsCommands, "note", at("type", "info")), el(nsData, "x", at("type", "form"))},
+		macros: []string{`<actions xmlns='` + nsCommands + `' execute='next'><prev/><next/><complete/></actions>`, mFormFull},
 		call: func(x *hx) error {
 			n := 0
 			return commands.Command{JID: serverJID, Node: "n1"}.ForEach(x.ctx, nil, x.s, func(resp commands.Response, payload xml.TokenReader) (commands.Command, xml.TokenReader, error) {
